@@ -14,6 +14,7 @@ def mono_mincut : Bool := true
 def shape_cached_descent_min : Bool := true
 def shape_chase_inherits_lineage : Bool := true
 def shape_ds_bounds_lease : Bool := true
+def shape_flight_key_has_fingerprint : Bool := true
 def shape_hit_does_not_store : Bool := true
 def shape_lease_anchored_at_observation : Bool := true
 def shape_lease_clamped_at_observation : Bool := true
